@@ -1,6 +1,260 @@
-(* C19 — gossip transport. *)
-From AM Require Import Base.Prelude Gen.Consts Model.Gossip Proofs.GossipProofs.
+(* C19 — Gossip transport delivers every state update to every live peer.
+   Statements only; every proof is a lemma of Proofs/GossipProofs.v (plus the glue that opens a contract record).
 
-Theorem c19_threshold n : oversized_len n = true <-> MaxGossipPacketSize / 2 < n.
-Proof. exact (oversized_len_spec n). Qed.
-Print Assumptions c19_threshold.
+   What is alertmanager's own code is modelled (Model/Gossip.v: Channel.Broadcast / OversizedMessage /
+   handleOverSizedMessages, delegate.NotifyMsg / LocalState / MergeRemoteState). What is not, is a parameter whose
+   assumed contract is an explicit premise:
+     wire_contract  wi    — protobuf-go round trip for Part and FullState;
+     state_contract ops … — a registered cluster.State is a last-write-wins store with expiry
+                            (proved for the notification log: c19_nflog_meets_state_contract; silences: C09);
+     memberlist           — [carries] in c19_eventual_delivery: SOME delivery of the schedule brings the packet or a
+                            later full state. That memberlist produces such a schedule for a connected peer is
+                            ASSUMED (third-party code), which is why "every live peer merges every update" is
+                            proved only relative to it (c19_…_partial would be the name if it were claimed outright). *)
+From AM Require Import Base.Prelude Gen.Consts Model.Nflog Proofs.NflogProofs Model.Gossip Proofs.GossipProofs.
+
+Section Statements.
+Context {B W ST : Type}.
+Variable wi : wire B W.
+Variable ops : stateops B ST.
+Variable inv : ST -> Prop.
+Variable ge : ST -> ST -> Prop.
+Variable live : Z -> ST -> ST.
+Variable is_marshal : ST -> B -> Prop.
+
+(* ---- delivered_update_is_merged: for EVERY payload b of every key, small or oversized alike, what the receiving
+   delegate does with the wrapped bytes is exactly State.Merge(b) on the state registered under that key (and
+   nothing when the key is not registered). ---- *)
+Theorem c19_delivered_update_is_merged now k b w (p : gmap string ST) :
+  wire_contract wi -> wrap wi k b = Some w ->
+  notify_msg wi ops now w p =
+  match p !! k with
+  | None => Ok p
+  | Some s => match mergeS ops now b s with Ok s' => Ok (<[k := s']> p) | Err _ => Ok p | Panic => Panic end
+  end.
+Proof. intros [Hp _] Hw. rewrite (notify_wrapped wi ops Hp now k b w p Hw). reflexivity. Qed.
+
+(* ---- size_routing: exactly the threshold MaxGossipPacketSize/2 on the encoded Part decides the sender ---- *)
+Theorem c19_size_routing_small (c : chan W) b w :
+  wrap wi (ch_key c) b = Some w -> wlen wi w <= MaxGossipPacketSize / 2 ->
+  broadcast wi c b = (c, [ESend w]).
+Proof. exact (broadcast_small wi c b w). Qed.
+
+Theorem c19_size_routing_oversized (c : chan W) b w :
+  wrap wi (ch_key c) b = Some w -> MaxGossipPacketSize / 2 < wlen wi w ->
+  snd (broadcast wi c b) = [] /\
+  ((Z.of_nat (length (ch_queue c)) < oversize_queue_cap /\
+    ch_queue (fst (broadcast wi c b)) = ch_queue c ++ [w] /\ ch_dropped (fst (broadcast wi c b)) = ch_dropped c)
+   \/
+   (oversize_queue_cap <= Z.of_nat (length (ch_queue c)) /\
+    ch_queue (fst (broadcast wi c b)) = ch_queue c /\ ch_dropped (fst (broadcast wi c b)) = ch_dropped c + 1)).
+Proof. exact (broadcast_oversized wi c b w). Qed.
+
+(* the worker passes a queued message to sendReliable once per current peer *)
+Theorem c19_oversized_to_every_peer e (c c' : chan W) evs :
+  worker_take e c = Some (c', evs) ->
+  exists w q, ch_queue c = w :: q /\ ch_queue c' = q /\ evs = map (fun p => EReliable p w) (e_peers e) /\
+              ch_sent c' = ch_sent c + Z.of_nat (length (e_peers e)) /\ ch_dropped c' = ch_dropped c.
+Proof. exact (worker_take_all_peers e c c' evs). Qed.
+
+(* ---- oversize_never_silent: over EVERY schedule of broadcasts and worker steps, each oversized broadcast is
+   counted by the dropped counter, or still queued, or was taken by the worker; and the counter moves exactly when
+   a message is dropped (queue full). ---- *)
+Theorem c19_oversize_never_silent (l : list (cact (B := B))) (c : chan W) :
+  total wi (offered_over wi) c l + pending c = pending (fst (cact_run wi c l)) + total wi taken c l.
+Proof. exact (chan_conservation wi l c). Qed.
+
+Theorem c19_drop_counter_exact (c : chan W) (a : cact (B := B)) :
+  ch_dropped (fst (cact_step wi c a)) = ch_dropped c \/
+  (ch_dropped (fst (cact_step wi c a)) = ch_dropped c + 1 /\ offered_over wi c a = 1 /\
+   oversize_queue_cap <= Z.of_nat (length (ch_queue c)) /\ ch_queue (fst (cact_step wi c a)) = ch_queue c).
+Proof. exact (cact_step_dropped wi c a). Qed.
+
+(* everything either sender is ever given is the wrapping of a payload that was broadcast on this channel *)
+Theorem c19_channel_sends_only_wrapped_updates (l : list (cact (B := B))) key :
+  Forall (fun e => wrapped_of wi key (bcasts l) (ev_msg e)) (snd (cact_run wi (new_chan key) l)).
+Proof. exact (proj1 (chan_emits_only_wrapped wi l (new_chan key) [] (Forall_nil_2 _))). Qed.
+
+(* ---- unknown_key_ignored ---- *)
+Theorem c19_unknown_key_ignored now k b (p : gmap string ST) parts :
+  p !! k = None ->
+  merge_part ops now k b p = Ok p /\ merge_parts ops now ((k, b) :: parts) p = merge_parts ops now parts p.
+Proof.
+  intros H. split; [exact (merge_part_unknown ops now k b p H)|].
+  cbn [merge_parts]. rewrite (merge_part_unknown ops now k b p H). reflexivity.
+Qed.
+
+(* ---- malformed_no_change: bytes that do not decode, or a payload the state refuses, change nothing ---- *)
+Theorem c19_malformed_no_change_notify now w (p : gmap string ST) :
+  dec_part wi w = None -> notify_msg wi ops now w p = Ok p.
+Proof. exact (notify_undecodable wi ops now w p). Qed.
+
+Theorem c19_malformed_no_change_full now w (p : gmap string ST) :
+  dec_full wi w = None -> merge_remote_state wi ops now w p = Ok p.
+Proof. exact (merge_remote_undecodable wi ops now w p). Qed.
+
+Theorem c19_malformed_no_change_payload now k b (p : gmap string ST) s c :
+  p !! k = Some s -> mergeS ops now b s = Err c -> merge_part ops now k b p = Ok p.
+Proof. exact (merge_part_error ops now k b p s c). Qed.
+
+(* ---- malformed_never_blocks (false before fix d776701, where the loop returned at the first failing part):
+   a part that is unknown or fails to merge is equivalent to its absence — all other parts, before and AFTER it,
+   are applied. ---- *)
+Theorem c19_malformed_never_blocks now pre k x post (p p1 : gmap string ST) :
+  merge_parts ops now pre p = Ok p1 ->
+  (p1 !! k = None \/ exists s c, p1 !! k = Some s /\ mergeS ops now x s = Err c) ->
+  merge_parts ops now (pre ++ (k, x) :: post) p = merge_parts ops now (pre ++ post) p.
+Proof. exact (failing_part_is_skipped ops now pre k x post p p1). Qed.
+
+(* ... hence a marshalled state anywhere in a full-state message is merged whatever the other parts are *)
+Theorem c19_good_part_always_merged now parts k x a b (p : gmap string ST) :
+  state_contract ops inv ge live is_marshal ->
+  In (k, x) parts -> is_marshal a x -> inv a -> p !! k = Some b -> inv b ->
+  exists p' b', merge_parts ops now parts p = Ok p' /\ pge inv ge p' p /\
+                p' !! k = Some b' /\ ge b' (live now a) /\ ge b' b /\ inv b'.
+Proof. intros C. destruct C. eapply full_state_part_merged; eassumption. Qed.
+
+(* ---- full_state_complete / join_gets_everything: after merge_remote_state (local_state A) at P — for every Go
+   map order of the parts and of the items inside each marshalled state — every state registered at both is, at P,
+   at least as new as everything unexpired in A's, and nothing P had went backwards. ---- *)
+Theorem c19_full_state_complete now order (A P : gmap string ST) w :
+  wire_contract wi -> state_contract ops inv ge live is_marshal ->
+  local_state wi ops order A = Some w ->
+  (forall k s, A !! k = Some s -> inv s) -> (forall k s, P !! k = Some s -> inv s) ->
+  exists P', merge_remote_state wi ops now w P = Ok P' /\ pge inv ge P' P /\
+             forall k a b, In k order -> A !! k = Some a -> P !! k = Some b ->
+                           exists b', P' !! k = Some b' /\ ge b' (live now a) /\ ge b' b.
+Proof. intros [_ Hf] C. destruct C. eapply full_state_complete; eassumption. Qed.
+
+(* a (re-)joining instance that registers the same states obtains everything the other side holds unexpired *)
+Corollary c19_join_gets_everything now order (A P : gmap string ST) w :
+  wire_contract wi -> state_contract ops inv ge live is_marshal ->
+  local_state wi ops order A = Some w ->
+  (forall k s, A !! k = Some s -> inv s) -> (forall k s, P !! k = Some s -> inv s) ->
+  (forall k, In k order -> is_Some (P !! k)) ->
+  exists P', merge_remote_state wi ops now w P = Ok P' /\
+             forall k a, In k order -> A !! k = Some a -> exists b', P' !! k = Some b' /\ ge b' (live now a).
+Proof.
+  intros Cw Cs Hl IA IP Hreg.
+  destruct (c19_full_state_complete now order A P w Cw Cs Hl IA IP) as (P' & E & _ & H).
+  exists P'. split; [exact E|]. intros k a Hin Ha. destruct (Hreg k Hin) as [b Hb].
+  destruct (H k a b Hin Ha Hb) as (b' & Hb' & G & _). eauto.
+Qed.
+
+(* ---- never corrupts: ANY sequence of deliveries of ANY bytes (either path) leaves every registered state at
+   least as new as it was, registers nothing and unregisters nothing, and never fails ---- *)
+Theorem c19_any_bytes_never_corrupt sched (p : gmap string ST) :
+  state_contract ops inv ge live is_marshal ->
+  exists p', run_deliveries wi ops sched p = Ok p' /\ pge inv ge p' p.
+Proof. intros C. destruct C. eapply run_deliveries_total; eassumption. Qed.
+
+(* ---- duplicates_idempotent (instance clock not running backwards) ---- *)
+Theorem c19_duplicates_idempotent_packet now now' k x (p p' : gmap string ST) :
+  state_contract ops inv ge live is_marshal ->
+  now <= now' -> merge_part ops now k x p = Ok p' -> merge_part ops now' k x p' = Ok p'.
+Proof. intros C. destruct C. eapply notify_duplicate_idempotent; eassumption. Qed.
+
+Theorem c19_duplicates_idempotent_full_state now now' w (p p' : gmap string ST) :
+  state_contract ops inv ge live is_marshal ->
+  now <= now' -> merge_remote_state wi ops now w p = Ok p' -> merge_remote_state wi ops now' w p' = Ok p'.
+Proof. intros C. destruct C. eapply full_state_duplicate_idempotent; eassumption. Qed.
+
+(* ---- every update reaches every peer that memberlist serves: if, anywhere in an arbitrary schedule of deliveries
+   (reordered, duplicated, unknown keys, malformed bytes), ONE delivery carries the update u for key k — the
+   gossip/reliable packet, or a push-pull full state of a peer still holding (unexpired) something at least as new —
+   then at the end the receiver holds something at least as new as every item of u that was unexpired on arrival. *)
+Theorem c19_eventual_delivery sched1 now d sched2 k u b (p : gmap string ST) :
+  state_contract ops inv ge live is_marshal ->
+  p !! k = Some b -> inv b -> inv u -> carries wi inv ge live is_marshal now d k u ->
+  exists p' b', run_deliveries wi ops (sched1 ++ (now, d) :: sched2) p = Ok p' /\ pge inv ge p' p /\
+                p' !! k = Some b' /\ ge b' (live now u) /\ ge b' b.
+Proof. intros C. destruct C. eapply eventual_delivery; eassumption. Qed.
+
+End Statements.
+
+(* ---- the byte level: the size that decides is len(proto.Marshal(Part)) = part_size, and for the keys alertmanager
+   registers ("sil", "nfl": 3 bytes) a payload of 128..16383 bytes is gossiped iff it has at most
+   MaxGossipPacketSize/2 - 8 bytes ---- *)
+Theorem c19_wrapped_size k d : slen (enc_part k d) = part_size (slen k) (slen d).
+Proof. exact (enc_part_len k d). Qed.
+
+Theorem c19_threshold_in_payload_bytes d :
+  128 <= d < 16384 -> (oversized_len (part_size 3 d) = true <-> MaxGossipPacketSize / 2 - 8 < d).
+Proof. intros H. rewrite (part_size_key3 d H), oversized_len_spec. lia. Qed.
+
+(* ---- the notification log meets the state contract (C10's order): so every theorem above holds with
+   ops := nfl_ops, ge b (live now a) := "every entry of a unexpired at now has at b an entry at least as new" ---- *)
+Theorem c19_nflog_meets_state_contract : state_contract nfl_ops nfl_inv nfl_ge nfl_live nfl_is_marshal.
+Proof. exact nfl_contract. Qed.
+
+Theorem c19_nflog_order_meaning now (b a : gmap string entry) :
+  nfl_ge b (nfl_live now a) <->
+  forall k e, a !! k = Some e -> now <= e_exp e -> exists e', b !! k = Some e' /\ e_ts e <= e_ts e'.
+Proof. exact (nfl_ge_live_spec now b a). Qed.
+
+(* nfl_ops is the state transition of Log.Merge in Model/Nflog.v (the model C10 ties to nflog.go) *)
+Theorem c19_nflog_ops_is_nflog_model ret s now x blen :
+  match mergeS nfl_ops now x s with
+  | Ok s' => step ret s now (OMerge x blen) = (s', snd (step ret s now (OMerge x blen))) /\
+             snd (step ret s now (OMerge x blen)) <> RMergeErr
+  | _ => step ret s now (OMerge x blen) = (s, RMergeErr)
+  end.
+Proof. exact (nfl_merge_is_step ret s now x blen). Qed.
+
+(* full-state exchange of notification logs, spelled out: *)
+Theorem c19_nflog_full_state_complete {W} (wi : wire (list (option entry)) W) now order
+        (A P : gmap string (gmap string entry)) w :
+  wire_contract wi -> local_state wi nfl_ops order A = Some w ->
+  (forall k s, A !! k = Some s -> nfl_inv s) -> (forall k s, P !! k = Some s -> nfl_inv s) ->
+  exists P', merge_remote_state wi nfl_ops now w P = Ok P' /\
+             forall k a b, In k order -> A !! k = Some a -> P !! k = Some b ->
+               exists b', P' !! k = Some b' /\
+                 (forall gk e, a !! gk = Some e -> now <= e_exp e -> exists e', b' !! gk = Some e' /\ e_ts e <= e_ts e') /\
+                 (forall gk e, b !! gk = Some e -> exists e', b' !! gk = Some e' /\ e_ts e <= e_ts e').
+Proof.
+  intros Cw Hl IA IP.
+  destruct (c19_full_state_complete wi nfl_ops nfl_inv nfl_ge nfl_live nfl_is_marshal now order A P w Cw nfl_contract Hl IA IP)
+    as (P' & E & _ & H).
+  exists P'. split; [exact E|]. intros k a b Hin Ha Hb. destruct (H k a b Hin Ha Hb) as (b' & Hb' & G1 & G2).
+  exists b'. split; [exact Hb'|]. split; [apply nfl_ge_live_spec; exact G1|exact G2].
+Qed.
+
+(* ---- non-vacuity ---- *)
+Definition ex_wire : wire (list (option entry)) (option (string * list (option entry)) * option (list (string * list (option entry)))) :=
+  mkWire _ _ (fun k b => Some (Some (k, b), None)) (fun _ => 0) fst (fun ps => Some (None, Some ps)) snd.
+Example c19_wire_contract_nonvacuous : wire_contract ex_wire.
+Proof. constructor; cbn; [intros k b w [= <-]|intros ps w [= <-]]; reflexivity. Qed.
+
+Definition ex_e1 := mkEntry "g" "r/webhook/0" 100 5000 [1] [] [].
+Definition ex_e2 := mkEntry "h" "r/webhook/0" 200 6000 [2] [] [].
+Definition ex_A : gmap string (gmap string entry) := {[ "nfl" := {[ skey ex_e1 := ex_e1; skey ex_e2 := ex_e2 ]} ]}.
+Definition ex_P : gmap string (gmap string entry) := {[ "nfl" := ∅; "nf2" := ∅ ]}.
+(* a full state with a garbage part and an unknown key BEFORE the good part: the good part is merged *)
+Example c19_malformed_never_blocks_nonvacuous :
+  match merge_parts nfl_ops 300 [("nfl", [None]); ("zzz", [Some ex_e1]); ("nfl", [Some ex_e1; Some ex_e2])] ex_P with
+  | Ok P' => (map_to_list <$> (P' !! "nfl")) = Some (map_to_list ({[ skey ex_e1 := ex_e1; skey ex_e2 := ex_e2 ]} : gmap string entry))
+             /\ (map_to_list <$> (P' !! "nf2")) = Some [] /\ P' !! "zzz" = None
+  | _ => False
+  end.
+Proof. vm_compute. repeat split; reflexivity. Qed.
+Example c19_join_nonvacuous :
+  match local_state ex_wire nfl_ops ["nfl"] ex_A with
+  | Some w => match merge_remote_state ex_wire nfl_ops 300 w ex_P with
+              | Ok P' => (length ∘ map_to_list <$> (P' !! "nfl")) = Some 2%nat
+              | _ => False
+              end
+  | None => False
+  end.
+Proof. vm_compute. reflexivity. Qed.
+(* threshold at the byte level with the translated constant: 692 payload bytes gossiped, 693 reliable *)
+Example c19_threshold_nonvacuous :
+  oversized_len (part_size 3 692) = false /\ oversized_len (part_size 3 693) = true.
+Proof. vm_compute. split; reflexivity. Qed.
+
+Print Assumptions c19_delivered_update_is_merged.
+Print Assumptions c19_oversize_never_silent.
+Print Assumptions c19_malformed_never_blocks.
+Print Assumptions c19_full_state_complete.
+Print Assumptions c19_eventual_delivery.
+Print Assumptions c19_nflog_meets_state_contract.
+Print Assumptions c19_nflog_full_state_complete.
